@@ -28,6 +28,7 @@ def cases(tier):
         out.append(("CP %s" % op, "fn f(a: &i32, b: &i32) -> bool\n{\n\tvar r: bool = false;\n\tif &a %s &b\n\t{\n\t\tr = true;\n\t}\n\treturn: r\n}\n" % op, "(cmp %s (v ptr) (v ptr))" % op))
     for t in PRIMS:
         out.append(("ADV %s" % t, "fn f(x: &[..]i32, k: %s) -> i32\n{\n\tvar y: &[..]i32 = &x .. k;\n\treturn: y[0]\n}\n" % t, "(expr (bin .. (v ptr) (v %s)))" % t))
+    out.append(("ADV ptr", "fn f(x: &[..]i32, k: &[..]i32) -> i32\n{\n\tvar y: &[..]i32 = &x .. &k;\n\treturn: y[0]\n}\n", "(expr (bin .. (v ptr) (v ptr)))"))
     # calls: argument type and count
     for a, b in pairs:
         out.append(("ARG %s %s" % (a, b), "fn g(x: %s)\n{\n}\nfn f(v: %s)\n{\n\tg(v);\n}\n" % (a, b), "(call (%s) (%s))" % (a, b)))
